@@ -21,6 +21,13 @@ enum class validation_result : uint8_t {
     invalid
 };
 
+inline bool is_utf8_continuation(char c) {
+    return (c & 0xC0) == 0x80;
+}
+
+// Returns the code point encoded at the front of s and removes its encoding,
+// or -1 (leaving s untouched) if s does not start with a well-formed
+// UTF-8 byte sequence (Unicode Standard, Table 3-7).
 inline int pop_front_unichar(std::string_view& s) {
     // assuming that s.length() is > 0
 
@@ -31,17 +38,33 @@ inline int pop_front_unichar(std::string_view& s) {
         ch = s[0];
         s.remove_prefix(1);
     }
-    else if ((n == 0xC0 || n == 0xD0) && s.size() > 1) {
+    else if (
+        (n == 0xC0 || n == 0xD0) && s.size() > 1 &&
+        is_utf8_continuation(s[1])
+    ) {
         ch = ((s[0] & 0x1F) << 6) | (s[1] & 0x3F);
+        if (ch < 0x80) // overlong encoding
+            return -1;
         s.remove_prefix(2);
     }
-    else if ((n == 0xE0) && s.size() > 2) {
-        ch = ((s[0] & 0x1F) << 12) | ((s[1] & 0x3F) << 6) | (s[2] & 0x3F);
+    else if (
+        (n == 0xE0) && s.size() > 2 &&
+        is_utf8_continuation(s[1]) && is_utf8_continuation(s[2])
+    ) {
+        ch = ((s[0] & 0x0F) << 12) | ((s[1] & 0x3F) << 6) | (s[2] & 0x3F);
+        if (ch < 0x800 || (ch >= 0xD800 && ch <= 0xDFFF)) // overlong, surrogate
+            return -1;
         s.remove_prefix(3);
     }
-    else if ((n == 0xF0) && s.size() > 3) {
-        ch = ((s[0] & 0x1F) << 18) | ((s[1] & 0x3F) << 12) |
+    else if (
+        (s[0] & 0xF8) == 0xF0 && s.size() > 3 &&
+        is_utf8_continuation(s[1]) && is_utf8_continuation(s[2]) &&
+        is_utf8_continuation(s[3])
+    ) {
+        ch = ((s[0] & 0x07) << 18) | ((s[1] & 0x3F) << 12) |
             ((s[2] & 0x3F) << 6) | (s[3] & 0x3F);
+        if (ch < 0x10000 || ch > 0x10FFFF) // overlong, beyond Unicode
+            return -1;
         s.remove_prefix(4);
     }
 
